@@ -12,4 +12,6 @@ mod transport;
 
 pub use fingerprint::{Fingerprint, SHA256};
 pub use stream::{DropListener, MAX_MSG_LEN, Stream};
+#[cfg(libp2p_verif)]
+pub use stream::verif_hooks;
 pub use transport::parse_webrtc_dial_addr;
